@@ -48,13 +48,31 @@ def r1_new(ctx, prog, r):
         on_locales = recv is not None and M.derives_from_field(b, prog, recv["l"], "cfg_file::ConfigFile", "locales")
         if first_is_zero and on_locales:
             good_swaps.append(sb)
-    r.inst("ConfigFile::new#swap", "%d swap(0, _) on cfg.locales" % len(good_swaps))
+    inserts = []
+    for ib in M.call_blocks(b, r"std::vec::Vec::<T, A>::insert$"):
+        t = b.blocks[ib]["term"]
+        c = op_const(t["args"][1])
+        recv = op_place(t["args"][0])
+        if c and c.get("int") == "0" and recv is not None and M.derives_from_field(b, prog, recv["l"], "cfg_file::ConfigFile", "locales"):
+            inserts.append(ib)
+    r.inst("ConfigFile::new#swap", "%d swap(0, _) / %d insert(0, _) on cfg.locales" % (len(good_swaps), len(inserts)))
+    # the duplicate check must see every locale that was written in the file: nothing may be removed before it
+    dupchk = M.call_blocks(b, r"cfg_file::ConfigFile::contain_duplicates$")
+    removers = M.call_blocks(b, r"std::vec::Vec::<T, A>::(retain|retain_mut|dedup|dedup_by|dedup_by_key|remove|swap_remove|truncate|drain|clear|pop|split_off|extract_if)$")
+    for rb in removers:
+        recv = op_place(b.blocks[rb]["term"]["args"][0])
+        if recv is not None and M.derives_from_field(b, prog, recv["l"], "cfg_file::ConfigFile", "locales") and b.paths_avoiding(rb, dupchk, []):
+            r.viol("R1:ConfigFile::new#removes-before-dup-check", "`%s` drops declared locales before the duplicate check runs: a locale listed twice is no longer reported" % (callee_name(b.blocks[rb]["term"]) or "").split("::")[-1], file=b.file, line=b.blocks[rb]["term"]["line"])
+    if not removers:
+        r.inst("ConfigFile::new#no-removal", "no element-removing call on cfg.locales before contain_duplicates")
+    good_swaps_only = list(good_swaps)
+    good_swaps = good_swaps + inserts
     if not good_swaps or not M.must_pass(b, good_swaps, [ok]):
-        r.viol("R1:ConfigFile::new#default-first", "a path reaches Ok(cfg) without `cfg.locales.swap(0, ..)`: the default locale is not moved to the front", file=b.file, line=b.line)
+        r.viol("R1:ConfigFile::new#default-first", "a path reaches Ok(cfg) without `cfg.locales.swap(0, ..)` / `insert(0, ..)`: the default locale is not moved to the front", file=b.file, line=b.line)
     # each swap: index is the position() result, or follows a push of cfg.default
     pos = M.call_blocks(b, r"Iterator>::position$|Iterator::position$")
     pushes = M.call_blocks(b, r"std::vec::Vec::<T, A>::push$")
-    for sb in good_swaps:
+    for sb in good_swaps_only:
         dom_pos = any(b.dominates(p, sb) for p in pos)
         dom_push = any(b.dominates(p, sb) for p in pushes)
         some_side = False
